@@ -6,13 +6,14 @@ import GoldilocksVerif.Model.Conv
 import GoldilocksVerif.Model.Ext
 import GoldilocksVerif.Model.Sponge
 import GoldilocksVerif.Model.Ntt
+import GoldilocksVerif.Model.ParCopy
 import GoldilocksVerif.Gen.PosScalar
 import GoldilocksVerif.Gen.PosAvx2
 import GoldilocksVerif.Gen.PosAvx512
 namespace Driver
 open Gen.Scalar
 
-def okW (l : List (BitVec 64)) : Option String := some ("ok " ++ fmtWords l)
+def okW (l : List (BitVec 64)) : Option String := some (if l.isEmpty then "ok" else "ok " ++ fmtWords l)
 
 /-- C01: the generated scalar operations are value functions; every aliasing pattern of the C++
     call denotes the same function applied to the values the operands held before the call. -/
@@ -196,7 +197,22 @@ def c03 (fn : String) (args : List Arg) : Option String :=
       | .error e => if e == "parse" then some "err parse" else some "err signal 6"
   | _, _ => none
 
+/-- C17/C12: parcpy / parSetZero; `rev` = the chunk iterations executed in reverse order -/
+def c17 (fn : String) (args : List Arg) : Option String :=
+  open GoldilocksVerif GoldilocksVerif.ParCopy in
+  match fn, args with
+  | "parcpy", [.w nt, .r dst, .r src] =>
+      okW (Region.toList (parcpy (Region.ofList dst) (Region.ofList src) src.length nt.toInt) dst.length)
+  | "parcpy_rev", [.w nt, .r dst, .r src] =>
+      okW (Region.toList (parcpyIn (starts src.length nt.toInt).reverse (Region.ofList dst) (Region.ofList src) src.length nt.toInt) dst.length)
+  | "parsetzero", [.w size, .w nt, .r dst] =>
+      okW (Region.toList (parSetZero (Region.ofList dst) size.toNat nt.toInt) dst.length)
+  | _, _ => none
+
 def handDispatch (fn : String) (args : List Arg) : Option String :=
+  match c17 fn args with
+  | some s => some s
+  | none =>
   match c01Alias fn args with
   | some s => some s
   | none =>
